@@ -79,3 +79,19 @@ Proof.
   intros d e P d' E V. destruct (tables_doc_roundtrip rows_ok8 d V) as (e0 & P0 & E0). rewrite P in P0. injection P0 as <-. rewrite E in E0. injection E0 as <-. reflexivity.
 Qed.
 Print Assumptions C08_second_roundtrip_identical.
+
+(* ---- the same with text and attributes (Model/PDoc.v, DocVal.v, DocValTables.v) ---- *)
+From MX Require Import Model.PDoc Model.DocVal Model.DocValTables.
+(* an element tree of any depth - built through the API or by the parser - that is structurally consistent (as above) and in which the str() of every
+   stored text value and attribute value is read back by its own ladder to a value with the same str() (velt_ok): whatever to_string emits from it is
+   parsed to an element tree that emits the SAME document: elements, order, nesting, every text, every attribute in order with its value.
+   (Which stored values meet the condition: C08_enum_values, C08_int_values, free strings; which do not: C08_refuted_bool.)  float() is a parameter. *)
+Theorem C08_document_values_roundtrip : forall py_float e d, velt_ok py_float e -> vemit e = Some d -> exists e', vparse py_float d = Some e' /\ vemit e' = Some d.
+Proof. intros py_float. exact (tables_emitted_values_roundtrip py_float rows_ok8). Qed.
+Print Assumptions C08_document_values_roundtrip.
+(* and a second round trip of such a document changes nothing *)
+Theorem C08_values_second_roundtrip_identical : forall py_float d e, vparse py_float d = Some e -> forall d', vemit e = Some d' -> gvalid py_float d -> d' = d.
+Proof.
+  intros py_float d e P d' E V. destruct (tables_gdoc_roundtrip py_float rows_ok8 d V) as (e0 & P0 & E0). rewrite P in P0. injection P0 as <-. rewrite E in E0. injection E0 as <-. reflexivity.
+Qed.
+Print Assumptions C08_values_second_roundtrip_identical.
